@@ -167,6 +167,41 @@ def search(ctx, deep):
                                    [float(prev[1][i]), float(cur[i])], 'C_theta pointwise non-decreasing in theta',
                                    f'{fam}.cdf:theta-order')
             prev = (th, cur)
+    # history: one object re-parameterised / re-fitted several times must behave like a fresh object
+    for fam in B.FAMS:
+        obj = B.cls_of(fam)()
+        pts = [(rng.uniform(0.05, 0.95), rng.uniform(0.05, 0.95)) for _ in range(6)]
+        for step in range(6 if not deep else 20):
+            th = B.theta_random(fam, rng)
+            if rng.random() < 0.5:
+                obj.theta = th
+                how = 'assign'
+            else:
+                # fit on data whose Kendall tau calibrates to (about) th
+                tau = min(max(B.tau_of(fam, th), -0.8 if fam == 'frank' else 0.05), 0.8)
+                rho = np.sin(np.pi * tau / 2)
+                z = ctx.nprng('hist', fam, step).multivariate_normal([0, 0], [[1, rho], [rho, 1]], size=60)
+                from scipy.stats import norm
+                try:
+                    obj.fit(norm.cdf(z))
+                except ValueError:
+                    continue
+                th = obj.theta
+                how = 'fit'
+            fresh = B.make(fam, th)
+            checked += 1
+            with np.errstate(all='ignore'):
+                a = np.asarray(obj.cumulative_distribution(np.array(pts)), dtype=float)
+                b = np.asarray(fresh.cumulative_distribution(np.array(pts)), dtype=float)
+                ga = np.asarray(obj.generator(np.array([0.3, 0.7])), dtype=float)
+                gb = np.asarray(fresh.generator(np.array([0.3, 0.7])), dtype=float)
+            if not (np.array_equal(a, b, equal_nan=True) and np.array_equal(ga, gb, equal_nan=True)):
+                found += 1
+                ctx.fail_input(f'{fam}.cumulative_distribution', {'history_step': step, 'how': how, 'theta': th, 'points': pts},
+                               {'reused_object': a.tolist(), 'fresh_object': b.tolist()},
+                               'C depends only on (theta, u, v): a re-parameterised object equals a fresh one',
+                               f'{fam}.cdf:history-dependence')
+                break
     ctx.support = {'oracle_checks': checked, 'failures': found, 'deep': deep}
 
 
